@@ -50,8 +50,8 @@ fn special_receivers() -> Vec<(String, Box<dyn Fn() -> Envelope>)> {
     { let (base, key, sk, pk, kv) = (base.clone(), key.clone(), sk.clone(), pk.clone(), kv_cur.clone()); let _ = (&base, &key, &sk, &pk, &kv); out.push(("encrypted subject + assertion".into(), Box::new(move || base.add_assertion("p", "o").encrypt_subject(&key).unwrap()))); }
     { let (base, key, sk, pk, kv) = (base.clone(), key.clone(), sk.clone(), pk.clone(), kv_cur.clone()); let _ = (&base, &key, &sk, &pk, &kv); out.push(("elided subject + assertion".into(), Box::new(move || base.add_assertion("p", "o").elide_removing_target(&base)))); }
     { let (base, key, sk, pk, kv) = (base.clone(), key.clone(), sk.clone(), pk.clone(), kv_cur.clone()); let _ = (&base, &key, &sk, &pk, &kv); out.push(("compressed node as subject".into(), Box::new(move || base.add_assertion("p", "o").compress().unwrap().add_assertion("q", "r")))); }
-    { let (base, key, sk, pk, kv) = (base.clone(), key.clone(), sk.clone(), pk.clone(), kv_cur.clone()); let _ = (&base, &key, &sk, &pk, &kv); out.push(("request-like".into(), Box::new(move || Envelope::new(CBOR::to_tagged_value(40010u64, "not an arid")).add_assertion(known_values::BODY, "junk")))); }
-    { let (base, key, sk, pk, kv) = (base.clone(), key.clone(), sk.clone(), pk.clone(), kv_cur.clone()); let _ = (&base, &key, &sk, &pk, &kv); out.push(("response-like, both".into(), Box::new(move || Envelope::new(CBOR::to_tagged_value(40011u64, 5u8)).add_assertion(known_values::RESULT, 1).add_assertion(known_values::ERROR, 2)))); }
+    { let (base, key, sk, pk, kv) = (base.clone(), key.clone(), sk.clone(), pk.clone(), kv_cur.clone()); let _ = (&base, &key, &sk, &pk, &kv); out.push(("request-like".into(), Box::new(move || Envelope::new(CBOR::to_tagged_value(40004u64, "not an arid")).add_assertion(known_values::BODY, "junk")))); }
+    { let (base, key, sk, pk, kv) = (base.clone(), key.clone(), sk.clone(), pk.clone(), kv_cur.clone()); let _ = (&base, &key, &sk, &pk, &kv); out.push(("response-like, both".into(), Box::new(move || Envelope::new(CBOR::to_tagged_value(40005u64, 5u8)).add_assertion(known_values::RESULT, 1).add_assertion(known_values::ERROR, 2)))); }
     // node whose subject is a node, assertion under two node levels (decoder shapes)
     { let (base, key, sk, pk, kv) = (base.clone(), key.clone(), sk.clone(), pk.clone(), kv_cur.clone()); let _ = (&base, &key, &sk, &pk, &kv); out.push(("node-subject-node".into(), Box::new(move || build(&n(n(l(1), vec![a(l(2), l(3))]), vec![a(l(4), l(5))]))))); }
     { let (base, key, sk, pk, kv) = (base.clone(), key.clone(), sk.clone(), pk.clone(), kv_cur.clone()); let _ = (&base, &key, &sk, &pk, &kv); out.push(("assertion under two nodes".into(), Box::new(move || build(&n(l(1), vec![n(n(a(l(2), l(3)), vec![a(l(4), l(5))]), vec![a(l(6), l(7))])]))))); }
